@@ -142,7 +142,8 @@ class Cli:
         return (
             'r"""\n'
             f'generated by json2python-models v{VERSION} at {datetime.now().ctime()}\n'
-            f'command: {" ".join(sys.argv)}\n'
+            # The header is a raw triple-quoted string: a triple quote in the command line would end it
+            'command: ' + " ".join(sys.argv).replace('"""', '""\\"') + '\n'
             '"""\n'
         )
 
